@@ -829,6 +829,35 @@ func main() {
 			return res
 		})
 	}
+	// (9') several files of one run end in a fatal error (unreadable files; files of a repository whose
+	// configuration is broken): the fatal error that is returned is the same one every time
+	{
+		fp := filepath.Join(*out, "fatalproj")
+		hx.Must(os.MkdirAll(filepath.Join(fp, ".git"), 0o755))
+		var good, missing []string
+		for i := 0; i < 5; i++ {
+			g := filepath.Join(fp, ".github", "workflows", fmt.Sprintf("w%d.yaml", i))
+			writeFile(g, "on: push\njobs:\n  a:\n    runs-on: ubuntu-latest\n    steps:\n      - run: echo ${{ nope }}\n")
+			good = append(good, g)
+			missing = append(missing, filepath.Join(fp, ".github", "workflows", fmt.Sprintf("absent%d.yaml", i)))
+		}
+		hx.Must(os.MkdirAll(filepath.Join(fp, ".github", "workflows", "dir.yaml"), 0o755))
+		for ci, fs := range [][]string{
+			{missing[0], missing[1], missing[2]},
+			{good[0], missing[3], good[1], missing[1], good[2], missing[4]},
+			{missing[2], good[0], filepath.Join(fp, ".github", "workflows", "dir.yaml"), missing[0]},
+			{good[0], good[1], good[2], good[3], missing[4], missing[3]},
+		} {
+			fs := fs
+			sum.Dist["several_fatal_errors_runs"]++
+			check(fmt.Sprintf("multi-fatal:several-unreadable-files:%d", ci), fmt.Sprintf("%d files of which two or more cannot be read", len(fs)), strings.ReplaceAll(strings.Join(fs, "\n"), fp, "<proj>"), func(rep int) result {
+				res := lintFiles(fs, rep)
+				res.Fail = strings.ReplaceAll(res.Fail, fp, "<proj>")
+				res.Errs = strings.ReplaceAll(res.Errs, fp, "<proj>")
+				return res
+			})
+		}
+	}
 	// (10) "how many times the run is repeated": the SAME Linter value lints the same file again;
 	// every run must report what the first one reported (a broken local action and a broken
 	// reusable workflow are reported once per RUN, not once per Linter)
